@@ -137,7 +137,7 @@ class Run:
         code, out, wall = run(tlc_cmd(module + ".tla", cfg, meta, workers=workers, heap=heap), timeout, cwd=self.specdir)
         shutil.rmtree(meta, ignore_errors=True)
         st, tr = parse_tlc_stats(out)
-        violated = re.findall(r"Invariant (\w+) is violated", out)
+        violated = re.findall(r"Invariant (\w+) is violated", out) + re.findall(r"Action property (\w+) is violated", out)
         if expect_violation:
             if expect_violation not in violated:
                 raise MachineryError("negative control %s/%s not violated (vacuous bounds?)\n%s" % (module, expect_violation, out[-1500:]))
